@@ -155,6 +155,7 @@ func ruleEvalWrite(c *engine.Context) *report.Rule {
 		r.Undischarged("engine: "+u, "-", "construct outside the points-to model: %s", u)
 	}
 	exempt := sentinelExempt(c, a, r)
+	markerWriters := validatorsOverwritingMarker(c)
 	effs := a.EvalEffects()
 	r.Instances = len(effs)
 	for _, e := range effs {
@@ -164,7 +165,7 @@ func ruleEvalWrite(c *engine.Context) *report.Rule {
 		classes := map[string]int{}
 		for _, t := range e.Targets {
 			cls := a.Class(t)
-			if name, ok := exempt[t.Root()]; ok {
+			if name, ok := exempt[t.Root()]; ok && !(markerWriters[e.Fn] && name == p.Roles.MarkerList.Name()) {
 				classes["sentinel:"+name]++
 				continue
 			}
@@ -205,7 +206,7 @@ func ruleEvalWrite(c *engine.Context) *report.Rule {
 		construct := instrKey(e.Instr, e.What)
 		// witness for the first bad target
 		for _, t := range e.Targets {
-			if _, ex := exempt[t.Root()]; ex {
+			if name, ex := exempt[t.Root()]; ex && !(markerWriters[e.Fn] && name == p.Roles.MarkerList.Name()) {
 				continue
 			}
 			cls := a.Class(t)
@@ -660,4 +661,46 @@ func textHelperAccess(c *engine.Context, g *ssa.Global, owned map[*regions.Objec
 		}
 	}
 	return false
+}
+
+// validatorsOverwritingMarker: validators with a path that stores into an element which may
+// already hold the absence marker. The shared "no match" list (one marker) reaches every
+// validator; the sentinel exemption of R-EVAL-WRITE rests on validators leaving the marker alone.
+func validatorsOverwritingMarker(c *engine.Context) map[*ssa.Function]bool {
+	p := c.P
+	out := map[*ssa.Function]bool{}
+	markerT := p.Roles.MarkerType()
+	for _, T := range p.Roles.ValidatorTypes {
+		fn := methodOf(p, T, p.Roles.ValidateMethod)
+		if fn == nil || fn.Blocks == nil {
+			continue
+		}
+		ll := analyseListLoop(p, fn, firstListParam(fn))
+		if ll.reason != "" {
+			continue // V-ACCEPT reports the unrecognised shape
+		}
+		for _, ep := range ll.paths {
+			if len(ep.stores) == 0 {
+				continue
+			}
+			excluded := false
+			ft, isNil := ep.typeFact(markerT)
+			if isNil || (ft != nil && !types.Identical(ft, markerT)) {
+				excluded = true
+			}
+			for _, pc := range ep.conds {
+				holds := pc.taken
+				if pc.neg {
+					holds = !holds
+				}
+				if !holds && (pc.kind == condIsMarker || (pc.kind == condTypeIs && types.Identical(pc.typ, markerT))) {
+					excluded = true
+				}
+			}
+			if !excluded {
+				out[fn] = true
+			}
+		}
+	}
+	return out
 }
